@@ -266,12 +266,12 @@ class Tr:
                     am = arm.match(sq, pos)
                     if not am or am.group(3) not in sinks or am.group(2) != am.group(4) or self.enums[ty].get(am.group(1)) != "Vec<u8>":
                         raise Unrecognised("payload match arm at %r" % sq[pos:pos + 50])
+                    if state.get("secondary") and am.group(3) != state["secondary"]:
+                        state["dirty"] = True
                     seen.add(am.group(1))
                     pos = am.end()
                 if seen != set(self.enums[ty]):
                     raise Unrecognised("payload match does not cover every variant of %s" % ty)
-                if state.get("secondary"):
-                    state["dirty"] = state.get("dirty") or False
                 out.append(("payload", p))
                 i += end
                 continue
